@@ -349,6 +349,57 @@ func scenarios() []*sched.Scenario {
 		root.Shutdown()
 		p.ShutdownComplete.Wait()
 	}})
+	// (H) a group shuts down every pool below it, whatever happened to their siblings before: one pool (explorer's
+	// choice) was shut down on its own first
+	out = append(out, &sched.Scenario{Name: "group/shutdown-after-one-pool-was-shut-down", QuickMaxBound: 1, Run: func() {
+		g := workerpool.NewGroup("g")
+		pools := []*workerpool.WorkerPool{
+			g.CreatePool("p1", workerpool.WithWorkerCount(1)),
+			g.CreatePool("p2", workerpool.WithWorkerCount(1)),
+			g.CreatePool("p3", workerpool.WithWorkerCount(1)),
+		}
+		sub := g.CreateGroup("sub")
+		pools = append(pools, sub.CreatePool("p4", workerpool.WithWorkerCount(1)))
+		first := vrt.Choose(3, 0)
+		pools[first].Shutdown()
+		pools[first].ShutdownComplete.Wait()
+		g.Shutdown()
+		for _, p := range pools {
+			p.ShutdownComplete.Wait() // never returns for a pool the group forgot
+			if p.IsRunning() {
+				vrt.Fail("group|pool-running-after-group-shutdown", "pool %s still runs after the group was shut down (pool %d had been shut down on its own before)", p.Name, first+1)
+			}
+		}
+		if !g.IsShutdown() || !sub.IsShutdown() {
+			vrt.Fail("group|not-shutdown", "IsShutdown is false after Shutdown")
+		}
+	}})
+	// (I) concurrent Start callers (fresh pool, and restart after a shutdown): one of them starts the pool, the other
+	// returns; the pool then accepts, runs and shuts down as usual
+	for _, restart := range []bool{false, true} {
+		restart := restart
+		name := "start-vs-start/w1"
+		if restart {
+			name = "restart-vs-restart/w1"
+		}
+		out = append(out, &sched.Scenario{Name: name, QuickMaxBound: 2, Run: func() {
+			p := workerpool.New("p", workerpool.WithWorkerCount(1))
+			b := newBook(p, false)
+			if restart {
+				p.Start()
+				p.Submit(b.task(0, nil))
+				p.Shutdown()
+				p.ShutdownComplete.Wait()
+			}
+			vrt.Par(func() { p.Start() }, func() { p.Start() })
+			p.Submit(b.task(1, nil))
+			p.Shutdown()
+			p.ShutdownComplete.Wait()
+			b.doneStep = vrt.Step()
+			vrt.Quiesce()
+			b.final(p)
+		}})
+	}
 	return out
 }
 
